@@ -175,7 +175,7 @@ def session_traces(ctx, streams, ids, rnd):
 
 
 # ------------------------------------------------------------------------------------ purity of single calls
-def purity_events(case, ids):
+def purity_events(case, ids, iso=None):
     """kind-3 and kind-4 events for one (T, v); returns (events, descriptions)"""
     T, v = case['T'], case['v']
     ev, what = [], []
@@ -184,7 +184,8 @@ def purity_events(case, ids):
         obj = U.build_value(T, v, spec)
     except Exception:
         return ev, what
-    iso = {name: outcome(fn) for name, fn in call_list(case, None, fresh=True)}
+    if iso is None:
+        iso = {name: outcome(fn) for name, fn in call_list(case, None, fresh=True)}
     # encoding does not change the value being encoded
     # abstract content, encoding, printing and comparison behaviour (lazily instantiated placeholders in the private
     # store do not count as a change as long as none of these moves)
@@ -279,10 +280,30 @@ def scramble(T, obj, depth=0):
             pass
 
 
-def _purity_job(case):
+def _purity_job(job):
+    case, iso = job
     ids = Ids()
-    ev, what = purity_events(case, ids)
+    ev, what = purity_events(case, ids, iso)
     return ev, what
+
+
+def _iso_job(case):
+    """the calls of one case in a process that has run no codec call before (forked from a pristine template)"""
+    try:
+        U.build_type(case['T'])
+    except Exception:
+        return None
+    return {name: outcome(fn) for name, fn in call_list(case, None, fresh=True)}
+
+
+def isolated_outcomes(cases):
+    """'Runs alone': every case in its own process, forked from a fork server that imported the library but never called a
+    codec, so no cache, memo or singleton state left by another call can be shared with the run it is compared to."""
+    import multiprocessing
+    mp = multiprocessing.get_context('forkserver')
+    mp.set_forkserver_preload(['harness.checks.c12'])
+    with mp.Pool(min(16, os.cpu_count() or 4), maxtasksperchild=1) as pool:
+        return pool.map(_iso_job, cases, chunksize=1)
 
 
 # ------------------------------------------------------------------------------------ threads
@@ -350,7 +371,9 @@ def run(ctx):
         ids = Ids()
         streams = SP.pick_streams(cases, 16, 40 if ctx.quick else 120, ctx.seed, min_items=1, max_items=3)
         traces, meta = session_traces(ctx, streams, ids, rnd)
-        res = core.pmap(_purity_job, picked, chunksize=4)
+        isos = isolated_outcomes(picked)
+        # the histories: worker processes live for the whole map, so each case runs after the calls of many other cases
+        res = core.pmap(_purity_job, list(zip(picked, isos)), chunksize=4)
         tid = len(traces)
         for case, (ev, what) in zip(picked, res):
             if not ev:
@@ -417,6 +440,6 @@ def run(ctx):
     ctx.rule = ('(a) TLC: every interleaving of Session.tla; (b) every merge (sampled above 40) of the next() steps of two suspended '
                 'decoders sharing one schema object, with a one-shot call in between, debug logging off and on, each step followed '
                 'by a snapshot comparison of the shared schema object; (c) per (type, value): snapshots of the value object around '
-                'every encoder, of the schema around every decode (valid, damaged, truncated), outcome of every call compared with '
-                'the same call on fresh objects, with debug logging on, after a sibling result was edited in place; (d) the call '
+                'every encoder, of the schema around every decode (valid, damaged, truncated), outcome of every call (made after the '
+                'calls of many other cases in a long-lived worker) compared with the same call in a process of its own, with debug logging on, after a sibling result was edited in place; (d) the call '
                 'mix on 4 threads (sampled); all judged by spec/Trace_Session.tla')
